@@ -43,6 +43,7 @@ MIX = {  # kind -> (quick, thorough)
     "symjump-revisit": (12, 400),
     "dealt-value-calls": (16, 500),
     "jump0": (8, 300),
+    "hash-bound": (16, 500),
 }
 UNKNOWN_PS = [0.0, 0.0, 0.1, 0.5, 1.0]
 TIMEOUTS = [0.001, 0.001, 0.001, 0.001, 0, 0.3]
@@ -136,6 +137,35 @@ def make_case(kind, rng):
         toks += [":skip", "SELFBALANCE", 0x200 + 32 * len(vals), "MSTORE", 32 * (len(vals) + 1), 0x200, "RETURN"]
         case = diffcore.Case({0x1000: asm(toks)}, ncd=1, label=kind, gen_features=["definite-insufficient-funds"], bal_addrs=[0x1000, 0xBEEF, 0x2000])
         case.foundry = True
+        return case
+    if kind == "hash-bound":
+        # branches comparing a hash with a sum that contains it (the shape of solc's dynamic-array bound checks, which halmos
+        # prunes by a syntactic pattern when the sum is "small constant + the same hash"); variants with a further symbolic
+        # summand, a large constant, a different hash, or swapped operands are all satisfiable and must keep both sides
+        slot = rng.choice([0, 1, 5])
+        c = rng.choice([1, 5, 31, 2**32, 2**64 - 1])
+        toks = [36, "CALLDATALOAD", 0, "MSTORE", slot, 32, "MSTORE", 64, 0, "SHA3"]  # h = keccak(key . slot), key symbolic
+        shape = rng.choice(["c+h+y", "h+y", "c+h+y", "y+c+h", "big+h", "c+h2", "c+h"])
+        y = [4, "CALLDATALOAD"]
+        if shape == "c+h+y":
+            rhs = ["DUP1", c, "ADD"] + y + ["ADD"]
+        elif shape == "y+c+h":
+            rhs = y + [c, "ADD", "DUP2", "ADD"]
+        elif shape == "h+y":
+            rhs = y + ["DUP2", "ADD"]
+        elif shape == "big+h":
+            rhs = ["DUP1", ("push", 2**256 - rng.choice([1, 2**64, 7]), 32), "ADD"]
+        elif shape == "c+h2":
+            rhs = [slot + 1, 32, "MSTORE", 64, 0, "SHA3", c, "ADD"]
+        else:
+            rhs = ["DUP1", c, "ADD"]
+        # stack: h, rhs ; GT pops a=top? -> compute h > rhs as: rhs, h on top -> GT (a=h, b=rhs)
+        cmp_ = rng.choice(["GT", "LT-swapped"])
+        toks += rhs + (["DUP2", "GT"] if cmp_ == "GT" else ["DUP2", "SWAP1", "LT"])
+        toks += ["@wrap", "JUMPI", 0x11, 0x200, "MSTORE", 0x20, 0x200, "RETURN", ":wrap", 0x22, 0x200, "MSTORE", 0x20, 0x200, "RETURN"]
+        case = diffcore.Case({0x1000: asm(toks)}, ncd=2, label=kind, gen_features=["hash-bound:" + shape])
+        # inputs that make the sum wrap around (y = -c - 1, -1, ...) and some that do not
+        case.extra_cd = [[(2**256 - c - 1) % 2**256, 7], [2**256 - 1, 0], [2**256 - c, 1], [0, 2], [1, 3], [2**255, 2**255]]
         return case
     if kind == "calltree":
         return calltree.make_tree_case(rng)
